@@ -1,4 +1,5 @@
 import TR.Lemmas.Reconnect
+import TR.Lemmas.ReconnectHistory
 /-!
 # C16 — reconnect retries only connection failures, a bounded number of times
 
@@ -112,6 +113,52 @@ theorem state_connected_after_success (cfg : Cfg) (s : State) (c : Nat) (obs : L
     exact (this ⟨k, h⟩).2
   · simp at h
 
+/-! ### several requests sharing the connection state, in any interleaving
+
+Requests made through clones of the service, through the same handle again, or through services of the same
+layer share one `ReconnectState`; `ops` interleaves their `arrive` (= `call()`, which issues the first inner
+call), `poll`, `drop` and time steps arbitrarily, and the event log `(run cfg ops).sh.log` records inner
+completions and results in the order in which they happened. -/
+
+/-- **The published state is a function of the history of completions**: in every reachable state it reads
+`Connected` exactly when `linkUp` of the event log says so — the last event among {reconnectable inner error
+handled, success returned (or the `retry_on_reconnect = false` back-off ended)} is of the second kind. What the
+state read when a request was *issued*, and which request did what, does not enter. -/
+theorem state_is_function_of_history (cfg : Cfg) (ops : List Op) :
+    (run cfg ops).sh.conn = .connected ↔ linkUp cfg (run cfg ops).sh.log = true :=
+  hist_reachable cfg ops
+
+/-- **Connected after a success, whatever other requests did in between.** If request `c` returned `ok` and no
+reconnectable inner error has been handled *since* (events `post`), the published state is `Connected` — no
+matter how many other requests were issued before or after `c`, failed, gave up, were cancelled or are still
+backing off, and no matter what the state read when `c` was issued. With `post = []` (or only probes): the
+state is Connected immediately after any request completes successfully. -/
+theorem connected_after_any_success (cfg : Cfg) (ops : List Op) (c k : Nat) (pre post : List REv)
+    (hlog : (run cfg ops).sh.log = pre ++ REv.result c (.ok k) :: post)
+    (hpost : ∀ c' k' kd, REv.done c' k' (.err kd) ∈ post → cfg.reconn kd = false) :
+    (run cfg ops).sh.conn = .connected := by
+  rw [state_is_function_of_history, hlog]
+  apply linkUp_after_success cfg pre post _ rfl
+  intro x hx
+  cases x with
+  | done c' k' o =>
+    cases o with
+    | err kd => exact hpost c' k' kd hx
+    | _ => rfl
+  | _ => rfl
+
+/-- **Not connected after a reconnectable failure until the next success**: once a reconnectable inner error of
+any request has been handled, the published state is not `Connected` until some request returns `ok` (or a
+`retry_on_reconnect = false` back-off ends) — in particular not because some request was *issued* while the
+state still read Connected. -/
+theorem not_connected_after_failure_until_success (cfg : Cfg) (ops : List Op) (c k kd : Nat) (pre post : List REv)
+    (hlog : (run cfg ops).sh.log = pre ++ REv.done c k (.err kd) :: post) (hkd : cfg.reconn kd = true)
+    (hpost : ∀ x ∈ post, isSuccess x = false) :
+    (run cfg ops).sh.conn ≠ .connected := by
+  intro hc
+  rw [state_is_function_of_history, hlog, linkUp_after_failure cfg pre post _ (by simpa [isFailure] using hkd) hpost] at hc
+  simp at hc
+
 /-- **Not connected while a reconnectable failure is being handled**: if request `c` is unfinished,
 has had a reconnectable failure (`attempt > 0`), and was the last to write the published state,
 that state is `Reconnecting`. (Another request of the same layer that succeeds in the meantime
@@ -168,6 +215,20 @@ example :
     (lookup s.callers 1).map (·.result) = some (some (.maxAttempts 3 1 2))
       ∧ (lookup s.callers 2).map (fun st => (st.result, st.calls.length)) = some (some (.service 2 3), 1) := by
   decide
+
+/-- Interleaved requests sharing the state (the history `issue A, issue B, B fails and gives up, A succeeds`):
+request 1 warms the link up; request 2 (A) is issued while the state reads Connected and is in flight for 5 ms;
+request 3 (B) hits a reconnectable failure and gives up (`max_attempts = 0`), the state reads Disconnected;
+then A succeeds on its first attempt: the state reads Connected again. -/
+example :
+    let ops := [Op.arrive 1 [⟨0, .ok⟩], .poll 1 [], .arrive 2 [⟨5, .ok⟩], .poll 2 [],
+                .arrive 3 [⟨0, .err 1⟩], .poll 3 []]
+    let cfg := { cfgA with maxAttempts := some 0 }
+    (run cfg ops).sh.conn = .disconnected
+      ∧ (lookup (run cfg ops).callers 3).map (·.result) = some (some (.maxAttempts 1 1 2))
+      ∧ (run cfg (ops ++ [.adv 5, .poll 2 []])).sh.conn = .connected
+      ∧ (lookup (run cfg (ops ++ [.adv 5, .poll 2 []])).callers 2).map (fun st => (st.result, st.attempt))
+          = some (some (.ok 1), 0) := by decide
 
 /-- A randomised policy: an observed delay inside the envelope is accepted, one outside is refused. -/
 example : (Policy.jitter 3000000 10000000 50).allowed 1 8833565 = true
